@@ -6,18 +6,29 @@
    `null`, ROk (Some ranges) = the ranges of the Locations / of the TextEdits (every edit carries
    the request's newName), RFail = the Rust code panics.
 
+   The model follows /repo b909979: the cursor's identifier is resolved by its syntactic position
+   ([resolve name ctx table gp], gp = [is_global_position cursor], Model/Cursor.v: the previous
+   non-comment token is `proc`, `type`, `:` or `of`) - in a procedure context globally if gp, in the
+   local table first otherwise; rename and prepareRename are null when the resolved entry is
+   predefined ([is_predefined]; before: when the spelling was `int`).
+
    PROVED, for ALL documents d (any record of text / tokens / tree / table):  C13_robust,
-   C13_no_identifier_no_answer, C13_int_not_renamed, C13_same_name, C13_prepare_iff_rename,
-   C13_prepare_range, C13_references_in_rename, C13_rename_edits.
-   STATED AND REFUTED ON THE MODEL: C13_full_statement (references / rename / prepareRename read
-   formally over the syntactic occurrences and bindings of Proofs/GotoProofs.v); the four
-   refutations are the witnesses of the known findings C13-local-named-like-its-procedure,
-   C13-type-use-shadowed-by-local, C13-rename-predefined-procedure and C13-local-named-int.
+   C13_no_identifier_no_answer, C13_predefined_not_renamed (replaces C13_int_not_renamed, which is
+   false now and was a defect: a variable named `int` is renameable), C13_user_names_renamed,
+   C13_same_name, C13_prepare_iff_rename (now without the well-formedness hypothesis),
+   C13_prepare_null_rename_null, C13_no_context, C13_prepare_range, C13_references_in_rename,
+   C13_rename_edits, C13_global_position, C13_local_wins.
+   STATED, NOT PROVED, NOT REFUTED: C13_full_statement (references / rename / prepareRename read
+   formally over the syntactic occurrences and bindings of Spec/Nav.v).  Before b909979 it was
+   refuted on the model by the witnesses of the findings C13-local-named-like-its-procedure,
+   C13-type-use-shadowed-by-local, C13-rename-predefined-procedure and C13-local-named-int; on these
+   four witnesses it HOLDS now (C13_repaired_witnesses_agree) and no counterexample is known.
    STATED ONLY: C13_roundtrip_statement (apply the edits, same diagnostics, same bindings, rename
-   back).  Outside the four classes both are validated by the check (correspondence + oracle with
-   an independent edit model on the real server), not proved. *)
+   back).  Both are validated by the check (correspondence, derivation-based oracle, the judge
+   deciding the instances of C13_full_statement on generated programs - command 37 -, round-trip
+   oracle with an independent edit model on the real server), not proved. *)
 From Coq Require Import Permutation.
-From Spl Require Import Model.Goto Model.Refs Proofs.GotoProofs Proofs.RefsProofs.
+From Spl Require Import Model.Goto Model.Refs Spec.Nav Proofs.GotoProofs Proofs.RefsProofs.
 Import ListNotations.
 Local Open Scope N_scope.
 
@@ -36,38 +47,72 @@ Theorem C13_no_identifier_no_answer : forall d line col cur,
 Proof. exact no_identifier_no_answer. Qed.
 Print Assumptions C13_no_identifier_no_answer.
 
-(* 3. the identifier `int` is never renamed *)
-Theorem C13_int_not_renamed : forall d line col cur r,
-  doc_cursor d line col = ROk cur -> cursor_ident cur = Some (s_int, r) ->
+(* 3. predefined entities are never renamed: an identifier that resolves - by its position - to an
+      entry named like a predefined type or procedure gets null from rename and prepareRename *)
+Theorem C13_predefined_not_renamed : forall d line col cur name r ctx,
+  doc_cursor d line col = ROk cur -> cursor_ident cur = Some (name, r) -> c_ctx cur = Some ctx ->
+  is_predefined name ctx (d_table d) (is_global_position cur) = true ->
   rename d line col = ROk None /\ prepare_rename d line col = ROk None.
-Proof. exact int_not_renamed. Qed.
-Print Assumptions C13_int_not_renamed.
+Proof. exact predefined_not_renamed. Qed.
+Print Assumptions C13_predefined_not_renamed.
+
+(* 3b. ... and only those: on a well-formed document every identifier inside a declaration with a
+       table entry that does not resolve to a predefined entity is offered for renaming - also a
+       parameter or variable spelled `int` or `printi` *)
+Theorem C13_user_names_renamed : forall d line col cur name r ctx,
+  nav_wf_b d = true ->
+  doc_cursor d line col = ROk cur -> cursor_ident cur = Some (name, r) -> c_ctx cur = Some ctx ->
+  is_predefined name ctx (d_table d) (is_global_position cur) = false ->
+  (exists es, rename d line col = ROk (Some es)) /\ prepare_rename d line col = ROk (Some (pos_range r (d_text d))).
+Proof. exact user_names_renamed. Qed.
+Print Assumptions C13_user_names_renamed.
 
 (* 4. every identifier node collected for the answer carries the name under the cursor *)
-Theorem C13_same_name : forall name ctx p g i,
-  In i (find_referenced_identifiers name ctx p g) -> id_val i = name.
+Theorem C13_same_name : forall name ctx p g gp i,
+  In i (find_referenced_identifiers name ctx p g gp) -> id_val i = name.
 Proof. exact same_name. Qed.
 Print Assumptions C13_same_name.
 
-(* 5. prepareRename answers exactly when rename does (well-formed document, cursor inside a
-      declaration that has a table entry) *)
+(* 5. prepareRename is null exactly when rename is, with the cursor inside a declaration that has a
+      table entry (always the case in a diagnostic-free program); no well-formedness needed *)
 Theorem C13_prepare_iff_rename : forall d line col cur,
-  nav_wf_b d = true -> doc_cursor d line col = ROk cur -> c_ctx cur <> None ->
+  doc_cursor d line col = ROk cur -> c_ctx cur <> None ->
   (prepare_rename d line col = ROk None <-> rename d line col = ROk None).
 Proof. exact prepare_iff_rename. Qed.
 Print Assumptions C13_prepare_iff_rename.
 
-(* 6. ... and what it returns is the range of the identifier token under the cursor *)
+(* 5b. one direction holds at every position of every document: where prepareRename refuses, rename
+       refuses *)
+Theorem C13_prepare_null_rename_null : forall d line col,
+  prepare_rename d line col = ROk None -> rename d line col = ROk None.
+Proof. exact prepare_null_rename_null. Qed.
+Print Assumptions C13_prepare_null_rename_null.
+
+(* 5c. the other direction fails exactly outside every declaration with a table entry (error
+       declarations, declarations without a name, redeclarations' leftovers - malformed documents):
+       references and rename are null there, prepareRename still answers with the range of the
+       identifier under the cursor - the predefined test needs a context *)
+Theorem C13_no_context : forall d line col cur,
+  doc_cursor d line col = ROk cur -> c_ctx cur = None ->
+  references d line col = ROk None /\ rename d line col = ROk None
+  /\ prepare_rename d line col = ROk (option_map (fun id => pos_range (snd id) (d_text d)) (cursor_ident cur)).
+Proof. exact no_context. Qed.
+Print Assumptions C13_no_context.
+
+(* 6. what prepareRename returns is the range of the identifier token under the cursor, and that
+      identifier does not resolve to a predefined entity *)
 Theorem C13_prepare_range : forall d line col x,
   prepare_rename d line col = ROk (Some x) ->
-  exists t name, In t (d_toks d) /\ tk t = Ident name /\ name <> s_int
-                 /\ in_range (ts t, te t) (get_insertion_index line col (d_text d)) = true
-                 /\ x = pos_range (ts t, te t) (d_text d).
+  exists cur t name,
+    doc_cursor d line col = ROk cur /\ In t (d_toks d) /\ tk t = Ident name
+    /\ in_range (ts t, te t) (get_insertion_index line col (d_text d)) = true
+    /\ x = pos_range (ts t, te t) (d_text d)
+    /\ (forall ctx, c_ctx cur = Some ctx -> is_predefined name ctx (d_table d) (is_global_position cur) = false).
 Proof. exact prepare_range. Qed.
 Print Assumptions C13_prepare_range.
 
 (* 7. every reference is one of the edits of rename (rename = references + the cursor's own
-      occurrence, unless the name is `int`) *)
+      occurrence, unless the identifier is predefined) *)
 Theorem C13_references_in_rename : forall d line col rs,
   references d line col = ROk (Some rs) ->
   rename d line col = ROk None \/ exists es, rename d line col = ROk (Some es) /\ incl rs es.
@@ -80,14 +125,40 @@ Theorem C13_rename_edits : forall d line col es,
   rename d line col = ROk (Some es) ->
   exists cur name r ctx,
     doc_cursor d line col = ROk cur /\ cursor_ident cur = Some (name, r) /\ c_ctx cur = Some ctx
+    /\ is_predefined name ctx (d_table d) (is_global_position cur) = false
     /\ Forall2 (fun i e => id_val i = name
                            /\ exists x, ident_text_range (d_toks d) i = ROk x /\ e = pos_range x (d_text d))
-               (find_referenced_identifiers name ctx (d_ast d) (d_table d)) es
+               (find_referenced_identifiers name ctx (d_ast d) (d_table d) (is_global_position cur)) es
     /\ Forall (loc_of_token d) es.
 Proof. exact rename_edits. Qed.
 Print Assumptions C13_rename_edits.
 
-(* 9. the full functional statement, first half: answers of the three requests.
+(* 8b. resolution by syntactic position.  In a global position (the name of a global declaration, an
+       identifier of a type expression) the locals of the enclosing procedure play no role: the
+       identifier is looked up in the global table only and the occurrences of a variable are never
+       collected *)
+Theorem C13_global_position : forall name pe pe' p g,
+  find_referenced_identifiers name (GProcE pe) p g true
+  = match lookup g name with
+    | Some (GTypeE _) => find_types name p
+    | Some (GProcE _) => find_procs name p
+    | None => []
+    end
+  /\ is_predefined name (GProcE pe) g true = is_predefined name (GProcE pe') g true.
+Proof. intros. split; [apply referenced_global_position | apply predefined_global_position]. Qed.
+Print Assumptions C13_global_position.
+
+(* 8c. outside a global position a parameter or variable of the enclosing procedure wins, whatever
+       else has its name (its own procedure, a type, a predefined procedure, `int`): its occurrences
+       inside that procedure are collected, and it is not predefined *)
+Theorem C13_local_wins : forall name pe p g le,
+  lookup (pe_local pe) name = Some le ->
+  find_referenced_identifiers name (GProcE pe) p g false = find_vars name (id_val (pe_name pe)) p
+  /\ is_predefined name (GProcE pe) g false = false.
+Proof. exact referenced_local. Qed.
+Print Assumptions C13_local_wins.
+
+(* 9. the full functional statement (Spec/Nav.v), first half: answers of the three requests.
       [same_entity]: bound to the same declaring occurrence (predefined entities: the same name);
       [spec_references]: the other occurrences of that entity; [spec_rename]: all of them, None for a
       predefined entity; [spec_prepare]: the occurrence's own range, None for a predefined entity. *)
@@ -103,28 +174,6 @@ Example C13_full_statement_unfold :
         end
      /\ prepare_rename d l c = ROk (spec_prepare d o)).
 Proof. reflexivity. Qed.
-
-(* refuted by `proc f(f: int) { f := 1; } proc main() { f(2); }`: references on the parameter f
-   answers with the header and the call of the procedure f *)
-Theorem C13_full_statement_refuted : ~ C13_full_statement.
-Proof. exact full_statement_refs_refuted. Qed.
-Print Assumptions C13_full_statement_refuted.
-
-(* by `type t = int; proc main() { var t: t; t := 1; }`: references on the type identifier t
-   answers with the occurrences of the variable t *)
-Theorem C13_full_statement_refuted_by_type_name : ~ C13_full_statement.
-Proof. exact full_statement_refs_refuted_type_name. Qed.
-Print Assumptions C13_full_statement_refuted_by_type_name.
-
-(* by `proc main() { printi(1); printi(2); }`: rename is offered on the predefined procedure *)
-Theorem C13_full_statement_refuted_by_predefined : ~ C13_full_statement.
-Proof. exact full_statement_refs_refuted_predefined. Qed.
-Print Assumptions C13_full_statement_refuted_by_predefined.
-
-(* by `proc main() { var int: int; int := 1; }`: the variable named int cannot be renamed *)
-Theorem C13_full_statement_refuted_by_int_variable : ~ C13_full_statement.
-Proof. exact full_statement_refs_refuted_int_variable. Qed.
-Print Assumptions C13_full_statement_refuted_by_int_variable.
 
 (* 10. second half: applying a rename to a fresh name (edits applied with the text model of C08,
        Doc.apply_changes, last edit first).  Stated, not proved. *)
@@ -149,22 +198,65 @@ Proof. reflexivity. Qed.
 
 (* ---- non-vacuity ---- *)
 
-(* the witnesses are diagnostic-free and well-formed *)
+(* the witnesses of the four repaired findings are diagnostic-free and well-formed *)
 Example C13_witnesses_clean :
   is_clean witness_own_name = true /\ is_clean witness_type_name = true
   /\ is_clean witness_predefined = true /\ is_clean witness_int_variable = true
   /\ nav_wf_b (doc_of witness_predefined) = true /\ nav_wf_b (doc_of witness_int_variable) = true.
 Proof. vm_compute. repeat split. Qed.
 
-(* what the model answers on them *)
-Example C13_witness_answers :
-  references (doc_of witness_own_name) 0 7 = ROk (Some [((0, 5), (0, 6)); ((0, 41), (0, 42))])
+(* what the model answers on them now.  `proc f(f: int) { f := 1; } proc main() { f(2); }`: references
+   on the parameter f (0,7) is its use (before b909979: header and call of the procedure), as the
+   specification says; on the header's f (0,5) the call.  `type t = int; proc main() { var t: t; t := 1; }`:
+   references on the type identifier (0,35) is the type declaration (before: the variable's occurrences).
+   `proc main() { printi(1); printi(2); }`: rename / prepareRename on printi are null (before: two edits
+   and a range); references still lists the other call.  `proc main() { var int: int; int := 1; }`:
+   the variable `int` (0,28) is renamed at both occurrences (before: null); the type `int` (0,23) is not *)
+Example C13_repaired_witness_answers :
+  references (doc_of witness_own_name) 0 7 = ROk (Some [((0, 17), (0, 18))])
   /\ option_map (spec_references (doc_of witness_own_name)) (nth_error (occurrences (d_ast (doc_of witness_own_name))) 1)
      = Some [((0, 17), (0, 18))]
-  /\ rename (doc_of witness_predefined) 0 14 = ROk (Some [((0, 14), (0, 20)); ((0, 25), (0, 31))])
-  /\ prepare_rename (doc_of witness_predefined) 0 14 = ROk (Some ((0, 14), (0, 20)))
-  /\ rename (doc_of witness_int_variable) 0 28 = ROk None
-  /\ references (doc_of witness_int_variable) 0 28 = ROk (Some [((0, 18), (0, 21))]).
+  /\ references (doc_of witness_own_name) 0 5 = ROk (Some [((0, 41), (0, 42))])
+  /\ rename (doc_of witness_own_name) 0 17 = ROk (Some [((0, 7), (0, 8)); ((0, 17), (0, 18))])
+  /\ references (doc_of witness_type_name) 0 35 = ROk (Some [((0, 5), (0, 6))])
+  /\ references (doc_of witness_type_name) 0 38 = ROk (Some [((0, 32), (0, 33))])
+  /\ rename (doc_of witness_predefined) 0 14 = ROk None
+  /\ prepare_rename (doc_of witness_predefined) 0 14 = ROk None
+  /\ references (doc_of witness_predefined) 0 14 = ROk (Some [((0, 25), (0, 31))])
+  /\ rename (doc_of witness_int_variable) 0 28 = ROk (Some [((0, 18), (0, 21)); ((0, 28), (0, 31))])
+  /\ prepare_rename (doc_of witness_int_variable) 0 28 = ROk (Some ((0, 28), (0, 31)))
+  /\ rename (doc_of witness_int_variable) 0 23 = ROk None
+  /\ prepare_rename (doc_of witness_int_variable) 0 23 = ROk None.
+Proof. vm_compute. repeat split. Qed.
+
+(* the instances of C13_full_statement on the four former counterexamples and on the collision program
+   of Proofs/GotoProofs.v: at EVERY occurrence (6, 6, 3, 4, 35), first and last column, references /
+   rename / prepareRename answer what the specification says (as multisets) *)
+Example C13_repaired_witnesses_agree :
+  let ok t := forallb (refs_agree_at (doc_of t)) (occurrences (d_ast (doc_of t))) in
+  ok witness_own_name = true /\ ok witness_type_name = true /\ ok witness_predefined = true
+  /\ ok witness_int_variable = true /\ ok witness_collisions = true
+  /\ length (occurrences (d_ast (doc_of witness_predefined))) = 3%nat
+  /\ length (occurrences (d_ast (doc_of witness_int_variable))) = 4%nat.
+Proof. vm_compute. repeat split. Qed.
+
+(* on the collision program (line 1: `proc f(ref f: t, t: int, ref g: t) { var int: int; var printi: u;
+   f[t] := int; printi[0][1] := g[0]; }`, line 2: `proc g(x: int) { var a: t; var b: t; f(a, x, b);
+   printi(x); } proc main() { g(1); }`): the parameter f (1,11) has one other occurrence, the procedure f
+   (1,5) its call in g; the type t behind a colon (1,14) the five other occurrences of the TYPE t; the
+   parameter t (1,17) its use; the variables `int` and `printi` are renamed, the type `int` (1,46) and
+   the call of the predefined printi (2,49) are not; the parameter g of f (1,29) has its use, the
+   procedure g (2,5) its call in main *)
+Example C13_collision_answers :
+  let d := doc_of witness_collisions in
+  references d 1 11 = ROk (Some [((1, 66), (1, 67))]) /\ references d 1 5 = ROk (Some [((2, 37), (2, 38))])
+  /\ references d 1 14 = ROk (Some [((0, 5), (0, 6)); ((0, 49), (0, 50)); ((1, 32), (1, 33)); ((2, 24), (2, 25)); ((2, 34), (2, 35))])
+  /\ references d 1 17 = ROk (Some [((1, 68), (1, 69))])
+  /\ rename d 1 41 = ROk (Some [((1, 41), (1, 44)); ((1, 74), (1, 77))]) /\ prepare_rename d 1 41 = ROk (Some ((1, 41), (1, 44)))
+  /\ rename d 1 46 = ROk None /\ prepare_rename d 1 46 = ROk None
+  /\ rename d 1 55 = ROk (Some [((1, 55), (1, 61)); ((1, 79), (1, 85))])
+  /\ rename d 2 49 = ROk None /\ prepare_rename d 2 49 = ROk None
+  /\ references d 1 29 = ROk (Some [((1, 95), (1, 96))]) /\ references d 2 5 = ROk (Some [((2, 76), (2, 77))]).
 Proof. vm_compute. repeat split. Qed.
 
 (* a program with the same names (a, i) in two procedures, uses inside index, negated and
